@@ -1,7 +1,292 @@
-//! More vector kinds (filled in as the instances are added).
-use crate::runner::Ctx;
-use serde_json::Value as J;
+//! Fixed points (C07), one-item discipline and API agreement (C13); also derived from decode vectors.
+use crate::abs::*;
+use crate::judge::*;
+use crate::machine::*;
+use crate::runner::{hash_pub, Ctx};
+use coset::cbor::value::Value;
+use coset::CborSerializable;
+use serde_json::{json, Value as J};
 
-pub fn run_other(ctx: &mut Ctx, kind: &str, _v: &J) {
-    ctx.harness_error(format!("unknown vector kind {}", kind));
+fn prop_of(v: &J) -> String {
+    v["props"][0].as_str().unwrap_or("").to_string()
+}
+
+/// floating-point extras are compared up to NaN payload
+fn norm_nan(j: &J) -> J {
+    match j {
+        J::Array(a) => J::Array(a.iter().map(norm_nan).collect()),
+        J::Object(m) => {
+            if m.get("t").map(|t| t == "float").unwrap_or(false) || m.get("k").map(|k| k == "frac").unwrap_or(false) {
+                if let Ok(b) = bytes_of(&m["bits"]) {
+                    if b.len() == 8 {
+                        let mut a = [0u8; 8];
+                        a.copy_from_slice(&b);
+                        if f64::from_bits(u64::from_be_bytes(a)).is_nan() {
+                            let mut o = m.clone();
+                            o.insert("bits".into(), jbytes(&f64::NAN.to_bits().to_be_bytes()));
+                            return J::Object(o);
+                        }
+                    }
+                }
+            }
+            J::Object(m.iter().map(|(k, v)| (k.clone(), norm_nan(v))).collect())
+        }
+        _ => j.clone(),
+    }
+}
+
+/// The syntactic signature of known finding F7: the decoded item holds tag 2/3 directly on a byte string
+/// that ciborium would have turned into an integer (or rejected) had the byte string been definite-length.
+/// Such an item can only come from tag 2/3 applied to an indefinite-length bstr of joined length <= 16.
+pub fn f7_shape(j: &J) -> bool {
+    match j {
+        J::Array(a) => a.iter().any(f7_shape),
+        J::Object(m) => {
+            if m.get("t").map(|t| t == "tag").unwrap_or(false) {
+                let tag = bytes_of(&m["tag"]).unwrap_or_default();
+                if (tag == [2] || tag == [3]) && m["x"]["t"] == "bytes" {
+                    let b = bytes_of(&m["x"]["b"]).unwrap_or_default();
+                    if b.len() <= 8 || (b.len() <= 16 && (b[0] == 0 || (tag == [3] && b.len() == 16 && b[0] >= 128))) {
+                        return true;
+                    }
+                }
+            }
+            m.values().any(f7_shape)
+        }
+        _ => false,
+    }
+}
+
+fn with_tag(v: &J, tag: &str) -> J {
+    let mut v = v.clone();
+    let mut tags = v["tags"].as_array().cloned().unwrap_or_default();
+    if !tags.iter().any(|t| t == tag) {
+        tags.push(json!(tag));
+    }
+    v["tags"] = J::Array(tags);
+    v
+}
+
+pub fn fixpoint_one(ctx: &mut Ctx, v: &J, ty: &J, reg: &J, tagged: bool, wire: &[u8], p: &str) {
+    ctx.evaluations += 1;
+    let (dapi, eapi) = if tagged { ("tagged", "tagged") } else { ("slice", "vec") };
+    let dec = json!({"ev": "decode", "api": dapi, "ty": ty, "reg": reg});
+    let enc = json!({"ev": "encode", "api": eapi});
+    let mut m = Machine::new();
+    m.wire = Some(wire.to_vec());
+    let d0 = m.step(&dec);
+    match d0["kind"].as_str() {
+        Some("ok") => {}
+        Some("err") => {
+            ctx.rejected += 1;
+            return; // C07 quantifies over accepted inputs
+        }
+        Some("panic") => {
+            ctx.mismatch(p, v, "panic", json!({"at": "decode", "wire": hex(wire)}));
+            return;
+        }
+        _ => {
+            ctx.harness_error(format!("fixpoint decode: {}", d0["err"]));
+            return;
+        }
+    }
+    ctx.accepted += 1;
+    if has_unobservable(&d0) {
+        ctx.unjudged += 1;
+        return;
+    }
+    ctx.judged += 1;
+    let tagged_v;
+    let v = if f7_shape(&d0["val"]) {
+        tagged_v = with_tag(v, "tag23-on-indefinite-small-bstr");
+        &tagged_v
+    } else {
+        v
+    };
+    let h = hash_pub(&json!([ty, reg, tagged, hex(wire)]));
+    ctx.distinct.insert(h);
+    ctx.nontrivial.insert(h);
+    let e1 = m.step(&enc);
+    if e1["kind"] != "ok" {
+        ctx.mismatch(p, v, "accepted-value-does-not-encode", json!({"wire": hex(wire), "obs": e1}));
+        return;
+    }
+    let d1 = m.step(&dec);
+    if d1["kind"] != "ok" {
+        ctx.mismatch(p, v, "own-encoding-rejected", json!({"wire": hex(wire), "b1": e1["bytes"][0], "obs": d1}));
+        return;
+    }
+    if !same(&norm_nan(&d0["val"]), &norm_nan(&d1["val"])) {
+        ctx.mismatch(p, v, "value-changes-across-encode-decode", json!({"wire": hex(wire), "first": d0["val"], "second": d1["val"]}));
+        return;
+    }
+    let e2 = m.step(&enc);
+    if e2["kind"] != "ok" || e2["bytes"] != e1["bytes"] {
+        ctx.mismatch(p, v, "second-encoding-differs", json!({"wire": hex(wire), "b1": e1["bytes"], "b2": e2["bytes"]}));
+    }
+}
+
+fn run_fixpoint(ctx: &mut Ctx, v: &J) {
+    let p = prop_of(v);
+    let tagged = v["tagged"].as_bool().unwrap_or(false);
+    for w in v["wires"].as_array().cloned().unwrap_or_default() {
+        match bytes_of(&w) {
+            Ok(b) => fixpoint_one(ctx, v, &v["ty"], &v["reg"], tagged, &b, &p),
+            Err(e) => ctx.harness_error(e),
+        }
+    }
+}
+
+fn bstr_head(n: usize, out: &mut Vec<u8>) {
+    if n < 24 {
+        out.push(0x40 | n as u8);
+    } else if n < 256 {
+        out.push(0x58);
+        out.push(n as u8);
+    } else {
+        out.push(0x59);
+        out.extend_from_slice(&(n as u16).to_be_bytes());
+    }
+}
+
+/// [bstr(inner), {}, nil]: a COSE_Encrypt0 whose protected slot holds `inner`
+fn prot_with(inner: &[u8]) -> Vec<u8> {
+    let mut o = vec![0x83];
+    bstr_head(inner.len(), &mut o);
+    o.extend_from_slice(inner);
+    o.extend_from_slice(&[0xa0, 0xf6]);
+    o
+}
+
+fn dec_kind(ty: &str, reg: &str, b: &[u8]) -> J {
+    match std::panic::catch_unwind(std::panic::AssertUnwindSafe(|| decode_slice(ty, reg, b))) {
+        Ok(Dec::Ok(_, j)) => json!({"kind": "ok", "val": j}),
+        Ok(Dec::Err(k)) => json!({"kind": "err", "err": k}),
+        Ok(Dec::Harness(m)) => json!({"kind": "harness", "err": m}),
+        Err(_) => json!({"kind": "panic"}),
+    }
+}
+
+pub fn oneitem_one(ctx: &mut Ctx, v: &J, ty: &str, reg: &str, wire: &[u8], inner: bool, suffixes: &[Vec<u8>], p: &str) {
+    let wrap = |b: &[u8]| if inner { prot_with(b) } else { b.to_vec() };
+    let full = wrap(wire);
+    let base = dec_kind(ty, reg, &full);
+    ctx.evaluations += 1;
+    if base["kind"] == "harness" {
+        ctx.harness_error(format!("oneitem: {}", base["err"]));
+        return;
+    }
+    if base["kind"] == "panic" {
+        ctx.mismatch(p, v, "panic", json!({"wire": hex(&full)}));
+        return;
+    }
+    if base["kind"] != "ok" {
+        ctx.rejected += 1;
+        return; // C13 quantifies over accepted inputs
+    }
+    ctx.accepted += 1;
+    ctx.judged += 1;
+    let h = hash_pub(&json!([ty, reg, hex(&full)]));
+    ctx.distinct.insert(h);
+    ctx.nontrivial.insert(h);
+    // every proper prefix is rejected (of the item itself; for `inner`, of the header map inside the bstr)
+    let lo = if inner { 1 } else { 0 };
+    for k in lo..wire.len() {
+        let o = dec_kind(ty, reg, &wrap(&wire[..k]));
+        ctx.evaluations += 1;
+        if o["kind"] == "ok" || o["kind"] == "panic" {
+            ctx.mismatch(p, v, "proper-prefix-not-rejected", json!({"wire": hex(&full), "cut": k, "obs": o["kind"]}));
+            return;
+        }
+    }
+    // every non-empty suffix makes it ExtraneousData
+    for sfx in suffixes {
+        let mut b = wire.to_vec();
+        b.extend_from_slice(sfx);
+        let o = dec_kind(ty, reg, &wrap(&b));
+        ctx.evaluations += 1;
+        if o["kind"] != "err" || o["err"] != "ExtraneousData" {
+            ctx.mismatch(p, v, "suffix-not-rejected-as-extraneous", json!({"wire": hex(&full), "suffix": hex(sfx), "obs": o}));
+            return;
+        }
+    }
+    if inner {
+        return;
+    }
+    // byte-level decoding = parse, then convert
+    let via = match std::panic::catch_unwind(std::panic::AssertUnwindSafe(|| Value::from_slice(wire).ok().map(|pv| decode_value(ty, reg, pv)))) {
+        Ok(Some(Dec::Ok(_, j))) => json!({"kind": "ok", "val": j}),
+        Ok(Some(Dec::Err(k))) => json!({"kind": "err", "err": k}),
+        Ok(Some(Dec::Harness(m))) => json!({"kind": "harness", "err": m}),
+        Ok(None) => json!({"kind": "err", "err": "DecodeFailed"}),
+        Err(_) => json!({"kind": "panic"}),
+    };
+    if via["kind"] != "harness" && !same(&via, &base) {
+        ctx.mismatch(p, v, "byte-api-and-value-api-disagree-on-decode", json!({"wire": hex(wire), "bytes": base, "value": via}));
+        return;
+    }
+    // byte-level encoding = convert, then serialise
+    let mut m = Machine::new();
+    m.wire = Some(wire.to_vec());
+    let _ = m.step(&json!({"ev": "decode", "api": "slice", "ty": ty, "reg": reg}));
+    let a = m.step(&json!({"ev": "encode", "api": "vec"}));
+    if let Ok(b) = m.mem.encode_via_value() {
+        let bj = match b {
+            Ok(bytes) => json!({"kind": "ok", "bytes": [jbytes(&bytes)]}),
+            Err(k) => json!({"kind": "err", "err": k}),
+        };
+        if a["kind"] != bj["kind"] || (a["kind"] == "ok" && a["bytes"] != bj["bytes"]) {
+            ctx.mismatch(p, v, "byte-api-and-value-api-disagree-on-encode", json!({"to_vec": a, "via_value": bj}));
+        }
+    }
+}
+
+fn run_oneitem(ctx: &mut Ctx, v: &J) {
+    let p = prop_of(v);
+    let sfx: Vec<Vec<u8>> = v["suffixes"].as_array().map(|a| a.iter().filter_map(|x| bytes_of(x).ok()).collect()).unwrap_or_default();
+    let ty = v["ty"].as_str().unwrap_or("");
+    let reg = v["reg"].as_str().unwrap_or("");
+    if !v["inner"].is_null() {
+        match bytes_of(&v["inner"]) {
+            Ok(b) => oneitem_one(ctx, v, ty, reg, &b, true, &sfx, &p),
+            Err(e) => ctx.harness_error(e),
+        }
+    } else {
+        match bytes_of(&v["wire"]) {
+            Ok(b) => oneitem_one(ctx, v, ty, reg, &b, false, &sfx, &p),
+            Err(e) => ctx.harness_error(e),
+        }
+    }
+}
+
+/// `--derive`: every wire of a decode vector becomes a fixed-point (C07) or one-item (C13) case
+pub fn derive_from_decode(ctx: &mut Ctx, v: &J) {
+    let prop = ctx.prop.clone();
+    let api = v["api"].as_str().unwrap_or("slice");
+    let tys: Vec<(J, J)> = match v["multi"].as_array() {
+        Some(m) => m.iter().map(|x| (x["ty"].clone(), x["expect"]["accept"].clone())).collect(),
+        None => vec![(v["ty"].clone(), v["expect"]["accept"].clone())],
+    };
+    let default_sfx: Vec<Vec<u8>> = vec![vec![0], vec![0xf6], vec![0xff], vec![0x1c], vec![0xa0], vec![0x40, 0x40]];
+    for (ty, _acc) in tys {
+        for w in v["wires"].as_array().cloned().unwrap_or_default() {
+            let b = match bytes_of(&w) {
+                Ok(b) => b,
+                Err(_) => continue,
+            };
+            if prop == "C07" {
+                fixpoint_one(ctx, v, &ty, &v["reg"], api == "tagged", &b, "C07");
+            } else if prop == "C13" && api == "slice" {
+                oneitem_one(ctx, v, ty.as_str().unwrap_or(""), v["reg"].as_str().unwrap_or(""), &b, false, &default_sfx, "C13");
+            }
+        }
+    }
+}
+
+pub fn run_other(ctx: &mut Ctx, kind: &str, v: &J) {
+    match kind {
+        "fixpoint" => run_fixpoint(ctx, v),
+        "oneitem" => run_oneitem(ctx, v),
+        _ => ctx.harness_error(format!("unknown vector kind {}", kind)),
+    }
 }
